@@ -38,7 +38,7 @@ def obligations(tier):
         # library loops are bounded by the longest string that can exist: rcptto after K-1 accepted RCPTs of A + 2 (suffix) bytes each
         unwind_default=lambda p: (p["K"] - 1) * (p["A"] + 4) + 4,
         unwind=lambda p: {"substdio_put": 80, "vmain": p["K"] * (p["A"] + 5) + 2, "qmail_put": p["K"] * (p["A"] + 5) + 2},
-        timeout=1500,
+        timeout=1500 if q else 3000,
         functions=["qmail-smtpd.c:smtp_helo", "qmail-smtpd.c:smtp_ehlo", "qmail-smtpd.c:smtp_rset", "qmail-smtpd.c:smtp_mail", "qmail-smtpd.c:smtp_rcpt",
                    "qmail-smtpd.c:smtp_data", "qmail-smtpd.c:smtp_quit", "qmail-smtpd.c:addrparse", "qmail-smtpd.c:bmfcheck", "qmail-smtpd.c:addrallowed",
                    "qmail-smtpd.c:dohelo", "qmail-smtpd.c:err_*", "stralloc_*.c", "str_chr.c", "byte_rchr.c", "case_diffs.c"],
@@ -63,7 +63,7 @@ def obligations(tier):
         sysrename=["_exit", "time"],
         grid=([{"N": n, "TPL": 0} for n in ([6, 7] if q else [6, 7, 8])]) + [{"N": 14, "TPL": 1}],
         unwind_default=lambda p: p["N"] + 6,
-        timeout=1500,
+        timeout=1500 if q else 3000,
         functions=["qmail-smtpd.c:addrparse", "str_chr.c", "byte_rchr.c", "ip.c:ip_scanbracket", "ip.c:ip_scan", "scan_ulong.c", "stralloc_*.c"],
         cuts=["ipme_is -> symbolic verdict, argument recorded"],
         stubs=["stralloc_ready/readyplus: arena"],
@@ -79,7 +79,7 @@ def obligations(tier):
         lib=["arena_stralloc.c"], defines={"ARENA_CAP": 16, "ARENA_SLOTS": 1},
         grid=[{"N": n} for n in ([3, 4, 5, 6] if q else [1, 2, 3, 4, 5, 6, 7, 8])], backend="cadical",
         unwind_default=lambda p: max(p["N"] + 6, 10),
-        timeout=1500,
+        timeout=1500 if q else 3000,
         functions=["rcpthosts.c:rcpthosts", "byte_rchr.c", "case_lowerb.c", "stralloc_opyb.c"],
         cuts=["constmap -> case-insensitive linear search over table 1 (constmap_lemma)", "cdb_seek -> exact search over table 2, may fail (C11)"],
         stubs=["stralloc_ready/readyplus: arena"],
@@ -103,7 +103,7 @@ def obligations(tier):
         lib=["ideal_substdio.c", "arena_stralloc.c"], defines={"ARENA_CAP": 16, "ARENA_SLOTS": 1},
         grid=[{"N": n} for n in ([0, 2, 4, 6, 7] if q else range(0, 10))], backend="cadical",
         unwind_default=lambda p: p["N"] + 4,
-        timeout=1500,
+        timeout=1500 if q else 3000,
         functions=["commands.c:commands", "str_chr.c", "case_diffs.c", "stralloc_opys.c", "stralloc_opyb.c"],
         stubs=["substdio_get: ideal stream", "stralloc_ready/readyplus: arena"],
         assumes=["input: N arbitrary non-NUL bytes, then end of input; one read error at any position; table: mail, rcpt(flush), q(flush), default(flush)"],
@@ -118,7 +118,7 @@ def obligations(tier):
         unwind_default=lambda p: p["NE"] * (p["EL"] + 1) + 2,
         unwind=lambda p: {"constmap": p["NE"] + 1, "hash": max(p["EL"], p["QL"]) + 1, "case_diffb": p["QL"] + 1,
                           "constmap_init~h <= cm->mask": 66, "constmap_init~while (h &&": 3},
-        timeout=1500,
+        timeout=1500 if q else 3000,
         functions=["constmap.c:constmap_init", "constmap.c:constmap", "constmap.c:hash", "constmap.c:constmap_free", "case_diffb.c"],
         assumes=["table: NE entries of EL non-NUL bytes, NUL-separated; key: QL arbitrary bytes; malloc does not fail"],
         outside=["larger tables (more than 64 entries change the bucket count)", "colon mode (not used by qmail-smtpd)"],
